@@ -77,7 +77,7 @@ def pair_body(case, rec):
     if not acausal:
         scale = (refint.diag(g, tt, tx, 'coarse') * refint.diag(g, st_, sx, 'coarse'))**0.5
         ref = refint.bilform(g, tt, tx, st_, sx, 'coarse')
-    for exact in ([False, True] if not g.circle else [False]):
+    for exact in ([False, True] if g.polygon else [False]):
         site = 'bilform_exact' if exact else 'bilform'
         try:
             SL = operator(live, exact)
@@ -158,7 +158,7 @@ def matrix_body(case, rec):
             trial, test = list(leaves), leaves[case['cut'] % 3::max(2, n // 6)][:7]
         if len(test) * len(trial) < 100:
             path = 'inline'
-    exact = case['exact'] and not g.circle
+    exact = case['exact'] and g.polygon
     SL = operator(live, exact)
     try:
         with repo.quiet():
@@ -259,7 +259,7 @@ def point_body(case, rec):
     at_elem_time = t in (tt[0], tt[1])
     peak = refint.evaluate(g, tt[1], 0.5 * (tx[0] + tx[1]), g.side_of(*tx), tt, tx, res='coarse')
     calls = [('evaluate', lambda: SL.evaluate(e, t, x, P), lambda: refint.evaluate(g, t, x, side_x, tt, tx, res='coarse'))]
-    if (not g.circle) and side_x == g.side_of(*tx):
+    if g.straight(side_x) and side_x == g.side_of(*tx):
         calls.append(('evaluate_exact', lambda: SL.evaluate_exact(e, t, x), calls[0][2]))
     Q = np.array(interior_point(g, case['tpar'], case['xpar'])).reshape(2, 1)
     calls.append(('potential', lambda: SL.potential(e, t, Q), lambda: refint.potential(g, t, Q.ravel(), tt, tx)))
